@@ -778,6 +778,12 @@ class Printer:
             return p + '{\n' + body + p + '}\n'
         if k == 'DeclStmt':
             return ''.join(self.vardecl(v, p) for v in inner)
+        if k == 'AttributedStmt':
+            # `[[fallthrough]];` / `[[likely]] stmt`: the attributes carry no semantics, the sub-statement is printed
+            subs = [c for c in inner if not c.get('kind', '').endswith('Attr')]
+            if len(subs) != 1:
+                raise Unsupported('attributed statement with %d sub-statements' % len(subs))
+            return self.stmt(subs[0], ind)
         if k == 'IfStmt':
             parts = list(inner)
             pre = ''
@@ -1039,7 +1045,10 @@ class Printer:
                     if e is None:
                         raise Unsupported(f'default member initialiser of {any_["name"]} is not in the dump')
                 self.hoisted = []
-                ie = self.expr(e)
+                # opt-in (Fn(..., ref_member_pointers=True)): a reference member (`const T& m;`) modelled as a pointer field is
+                # bound, not copied: the initialiser is the address of the object (default: the member is a copy of the object)
+                is_ref_field = getattr(self, 'ref_member_pointers', False) and any_.get('type', {}).get('qualType', '').rstrip().endswith('&')
+                ie = self.addr(e) if is_ref_field else self.expr(e)
                 pre += ''.join(f'  {h}\n' for h in self.hoisted)
                 self.hoisted = None
                 pre += f'  self->{any_["name"]} = {ie};\n' + self.after('  ')
